@@ -132,10 +132,8 @@ func dependsOn(v ssa.Value, pred func(ssa.Value) bool) bool {
 		case *ssa.UnOp:
 			if x.Op == token.MUL {
 				if a, ok := x.X.(*ssa.Alloc); ok {
-					for _, ref := range *a.Referrers() {
-						if s, ok := ref.(*ssa.Store); ok && s.Addr == a && rec(s.Val, d+1) {
-							return true
-						}
+					if rec(a, d+1) {
+						return true
 					}
 				}
 			}
